@@ -5,6 +5,8 @@ import os, sys, re, json, time, random, hashlib, subprocess, importlib, shutil, 
 VERIF = os.path.dirname(os.path.dirname(os.path.abspath(__file__)))
 COQ = os.path.join(VERIF, "coq")
 REPO = os.environ.get("VERIF_REPO", "/repo")
+# experiments against a scratch tree (VERIF_REPO set) must not overwrite the committed evidence
+EVDIR = os.path.join(VERIF, "evidence") if os.path.realpath(REPO) == "/repo" else os.path.join(VERIF, "work", "alt-evidence")
 sys.path.insert(0, REPO)
 sys.path.insert(0, os.path.join(VERIF, "harness"))
 os.environ.setdefault("PYTHONHASHSEED", "0")
@@ -303,7 +305,7 @@ def case_hash(obj):
 
 
 def write_replay(prop, payload):
-    d = os.path.join(VERIF, "evidence", "replay")
+    d = os.path.join(EVDIR, "replay")
     os.makedirs(d, exist_ok=True)
     path = os.path.join(d, "%s-%s.json" % (prop, case_hash(payload)))
     json.dump(payload, open(path, "w"), indent=1, sort_keys=True, default=str)
@@ -522,8 +524,8 @@ def main(argv):
         "wall_s": round(time.time() - t0, 2),
         "violations": len(violations),
     }
-    os.makedirs(os.path.join(VERIF, "evidence"), exist_ok=True)
-    json.dump(ev, open(os.path.join(VERIF, "evidence", prop + ".json"), "w"), indent=1, sort_keys=True, default=str)
+    os.makedirs(EVDIR, exist_ok=True)
+    json.dump(ev, open(os.path.join(EVDIR, prop + ".json"), "w"), indent=1, sort_keys=True, default=str)
     shutil.rmtree(work, ignore_errors=True)
 
     for l in known_lines:
